@@ -38,6 +38,8 @@ pub enum Ty {
     Fut(Box<Ty>),
     /// `Poll<T>`
     Poll(Box<Ty>),
+    /// the sending half of an unbounded channel
+    Chan,
     Fun(Vec<Ty>, Box<Ty>),
     Counter,
     /// a user callback without result held as a value (`F: FnOnce()` inside an `Option` cell)
@@ -83,6 +85,7 @@ impl Ty {
             Ty::Res(a, b) => format!("(Except {} {})", b.lean(), a.lean()),
             Ty::Fut(_) => "Rs.Fut".into(),
             Ty::Poll(t) => format!("(Rs.Poll {})", t.lean()),
+            Ty::Chan => "Rs.Chan".into(),
             Ty::Fun(a, r) => {
                 let mut s = String::new();
                 for t in a {
@@ -297,6 +300,12 @@ impl Generics {
                     },
                     "AssertUnwindSafe" | "Pin" if args.len() == 1 => self.ty(args[0]),
                     "Poll" if args.len() == 1 => Ok(Ty::Poll(Box::new(self.ty(args[0])?))),
+                    "UnboundedSender" => Ok(Ty::Chan),
+                    // the receiving half: a stream whose `next()` polls are answered by the oracle
+                    "UnboundedReceiver" if args.len() == 1 => Ok(Ty::Fut(Box::new(Ty::Opt(Box::new(self.ty(args[0])?))))),
+                    "Output" | "Item" if tp.path.segments.len() == 2 && tp.path.segments[0].ident == "Self" && self.map.contains_key(&format!("Self::{}", name)) => {
+                        Ok(self.map[&format!("Self::{}", name)].clone())
+                    }
                     "Output" if tp.path.segments.len() == 2 => Ok(Ty::Val),
                     "BoxSubscription" | "BoxSubscriptionThreads" | "TaskHandle" | "SubscribeReturn" => Ok(Ty::Sub),
                     "NormalReturn" => Ok(Ty::Unit),
@@ -500,6 +509,7 @@ impl<'a> Fx<'a> {
             Expr::Field(f) => {
                 self.newtype && Self::is_self(&f.base) && matches!(&f.member, Member::Unnamed(i) if i.index == 0)
             }
+            Expr::MethodCall(m) if m.method == "as_mut" && m.args.is_empty() && self.ret_mode.is_some() && Self::is_self(&m.receiver) => true,
             Expr::MethodCall(m) if m.method == "project" && m.args.is_empty() => {
                 // `self.project()` / `self.as_mut().project()` of a pinned future: the fields of the state
                 Self::is_self(&m.receiver)
@@ -671,6 +681,8 @@ impl<'a> Fx<'a> {
                         _ => None,
                     },
                     ("len", 0) => Some(Ty::Nat),
+                    ("next", 0) if matches!(rt, Ty::Fut(_)) => Some(rt),
+                    ("unbounded_send", 1) if rt == Ty::Chan => Some(Ty::Res(Box::new(Ty::Unit), Box::new(Ty::Unit))),
                     ("poll", 1) | ("poll_unpin", 1) => match rt {
                         Ty::Fut(o) => Some(Ty::Poll(o)),
                         _ => None,
@@ -830,6 +842,9 @@ impl<'a> Fx<'a> {
                     ("Err", 1) => Ok(format!("(Except.error {})", parts[0])),
                     _ => bail(format!("pattern `{}`", show(p))),
                 }
+            }
+            Pat::Path(pp) if self.enum_of_path(&pp.path).is_some() => {
+                Ok(format!("{}.{}", self.enum_of_path(&pp.path).unwrap(), last_seg(&pp.path)))
             }
             Pat::Path(pp) => match last_seg(&pp.path).as_str() {
                 "None" => Ok("none".into()),
@@ -1112,7 +1127,7 @@ impl<'a> Fx<'a> {
                     matches!(&*m.expr, Expr::MethodCall(mc) if mc.method == "as_mut"),
                     m.arms.len(),
                 ) {
-                    if matches!(&**inner, Ty::List(_) | Ty::Named(_)) {
+                    if matches!(&**inner, Ty::List(_) | Ty::Named(_) | Ty::Res(..)) {
                         let some_arm = m.arms.iter().find(|a| matches!(&a.pat, Pat::TupleStruct(ts) if last_seg(&ts.path) == "Some"));
                         let none_arm = m.arms.iter().find(|a| !matches!(&a.pat, Pat::TupleStruct(_)));
                         if let (Some(sa), Some(na), Ok(pl)) = (some_arm, none_arm, self.place(&m.expr)) {
@@ -1446,6 +1461,8 @@ impl<'a> Fx<'a> {
                     Ok(self.read_place(&pl))
                 } else if n == "Pending" {
                     Ok("Rs.Poll.pending".into())
+                } else if let Some(en) = self.enum_of_path(&p.path) {
+                    Ok(format!("{}.{}", en, n))
                 } else {
                     bail(format!("path `{}`", show(p)))
                 }
@@ -1717,7 +1734,21 @@ impl<'a> Fx<'a> {
             };
         }
         if let Expr::Path(p) = f {
+            // a free helper of the struct under translation (`send_observable_value(self, v)`): its first argument is the state
+            if p.path.segments.len() == 1 && !c.args.is_empty() {
+                let n = last_seg(&p.path);
+                let first_is_state = self.is_root_recv(&c.args[0])
+                    || matches!(&c.args[0], Expr::Reference(r) if self.is_root_recv(&r.expr))
+                    || matches!(self.place(&c.args[0]), Ok(pl) if pl.root_self && pl.path.is_empty());
+                if self.strukt.methods.contains_key(&n) && first_is_state {
+                    let si: &'a StructInfo = self.strukt;
+                    let rest: Vec<&Expr> = c.args.iter().skip(1).collect();
+                    return self.struct_call(si, &n, &c.args[0], &rest);
+                }
+            }
             match (last_seg(&p.path).as_str(), c.args.len()) {
+                ("Ok", 1) => return Ok(format!("(Except.ok {})", self.expr(&c.args[0])?)),
+                ("Err", 1) => return Ok(format!("(Except.error {})", self.expr(&c.args[0])?)),
                 ("Ready", 1) => return Ok(format!("(Rs.Poll.ready {})", self.expr(&c.args[0])?)),
                 ("new", 1) if p.path.segments.len() == 2 && matches!(p.path.segments[0].ident.to_string().as_str(), "NormalReturn" | "SubscribeReturn") => {
                     return self.expr(&c.args[0]);
@@ -1980,6 +2011,38 @@ impl<'a> Fx<'a> {
             }
             return bail("the cell subscription (RcSubscription) is not available in this module");
         }
+        // the sending half of a channel
+        if rt == Some(Ty::Chan) {
+            match (name.as_str(), nargs) {
+                ("unbounded_send", 1) => {
+                    // the message goes into the channel unless the receiver is gone (`down`); the caller sees which
+                    let v = self.expr(args[0])?;
+                    self.out(format!("Rs.emitSend down {}", v))?;
+                    return Ok("(Rs.sendResult down)".into());
+                }
+                ("close_channel", 0) => {
+                    let pl = self.place(&m.receiver)?;
+                    self.write_place(&pl, "Rs.Chan.closed")?;
+                    self.out("Rs.emitChClose".to_string())?;
+                    return Ok("()".into());
+                }
+                ("is_closed", 0) => {
+                    let r = self.expr(&m.receiver)?;
+                    return Ok(format!("(Rs.chanClosed {} down)", r));
+                }
+                _ => {}
+            }
+        }
+        // the receiving half: `receiver.next()` is the future that is polled; `close()` refuses further messages
+        if let Some(Ty::Fut(_)) = &rt {
+            if name == "next" && nargs == 0 {
+                return self.expr(&m.receiver);
+            }
+            if name == "close" && nargs == 0 {
+                self.out("Rs.emitRxClose".to_string())?;
+                return Ok("()".into());
+            }
+        }
         // an opaque future is polled: the oracle answers
         if let Some(Ty::Fut(_)) = &rt {
             if matches!(name.as_str(), "poll" | "poll_unpin") && nargs == 1 {
@@ -2178,10 +2241,26 @@ impl<'a> Fx<'a> {
                 let a = self.expr(args[0])?;
                 Ok(format!("(Rs.contains {} {})", r, a))
             }
+            ("unwrap", 0) | ("expect", 1) if matches!(rt, Some(Ty::Res(..))) => {
+                let r = self.expr(&m.receiver)?;
+                let t = self.fresh("t");
+                self.emit(format!("let {} ← Rs.unwrapRes {}", t, r));
+                Ok(t)
+            }
             ("unwrap", 0) | ("expect", 1) => {
                 let r = self.expr(&m.receiver)?;
                 let t = self.fresh("t");
                 self.emit(format!("let {} ← Rs.unwrap {}", t, r));
+                Ok(t)
+            }
+            ("replace", 1) if matches!(rt, Some(Ty::Opt(_))) => {
+                // `opt.replace(v)`: the old content is handed back
+                let v = self.expr(args[0])?;
+                let pl = self.place(&m.receiver)?;
+                let cur = self.read_place(&pl);
+                let t = self.fresh("t");
+                self.emit(format!("let {} := {}", t, cur));
+                self.write_place(&pl, &format!("(some {})", v))?;
                 Ok(t)
             }
             ("unwrap_or", 1) => {
@@ -2592,6 +2671,8 @@ fn merge_generics(a: &syn::Generics, b: &syn::Generics) -> syn::Generics {
 struct FnUnit<'f> {
     im: &'f ItemImpl,
     f: &'f syn::ImplItemFn,
+    /// a free `fn helper(observer: &mut X<..>, ..)`: its first parameter is the state
+    free: bool,
 }
 
 pub fn parse_spec(spec: &str) -> Ty {
@@ -2651,7 +2732,7 @@ pub fn translate_enum(items: &[Item], name: &str, ctx: &mut Ctx) -> Res<String> 
             _ => None,
         })
         .ok_or(format!("enum {} not found", name))?;
-    let g = generics_for(&en.generics, &[], ctx, &HashMap::new())?;
+    let g = generics_for(&en.generics, &["E".to_string(), "Err".to_string()], ctx, &HashMap::new())?;
     let mut ctors = vec![];
     let mut s = format!("inductive {} where\n", name);
     for v in &en.variants {
@@ -2670,6 +2751,18 @@ pub fn translate_enum(items: &[Item], name: &str, ctx: &mut Ctx) -> Res<String> 
         ctors.push((v.ident.to_string(), tys));
     }
     s.push('\n');
+    // how a value of the enum is seen as a `Val` (a message that goes into a channel): constructor index and arguments
+    if ctors.iter().all(|(_, tys)| tys.len() <= 1 && tys.iter().all(|t| !matches!(t, Ty::Obs | Ty::Sub | Ty::Pub | Ty::Fun(..) | Ty::Named(_)))) {
+        writeln!(s, "instance : Rs.ToVal {} := ⟨fun x => match x with", name).unwrap();
+        for (k, (c, tys)) in ctors.iter().enumerate() {
+            if tys.is_empty() {
+                writeln!(s, "  | .{} => Val.pair (Val.int {}) Val.unit", c, k).unwrap();
+            } else {
+                writeln!(s, "  | .{} a0 => Val.pair (Val.int {}) (Rs.ToVal.toVal a0)", c, k).unwrap();
+            }
+        }
+        s.push_str("⟩\n\n");
+    }
     ctx.enums.insert(name.to_string(), EnumInfo { name: name.to_string(), ctors });
     Ok(s)
 }
@@ -2888,27 +2981,35 @@ pub fn translate_poll_fn(items: &[Item], name: &str, ctx: &Ctx, hints: &HashMap<
     let im = items
         .iter()
         .find_map(|i| match i {
-            Item::Impl(im) if matches!(&im.trait_, Some(tr) if last_seg(&tr.0) == "Future") && matches!(impl_target(&im.self_ty), Some((n, _, _)) if n == name) => Some(im),
+            Item::Impl(im) if matches!(&im.trait_, Some(tr) if matches!(last_seg(&tr.0).as_str(), "Future" | "Stream")) && matches!(impl_target(&im.self_ty), Some((n, _, _)) if n == name) => Some(im),
             _ => None,
         })
-        .ok_or(format!("impl Future for {} not found", name))?;
+        .ok_or(format!("impl Future / Stream for {} not found", name))?;
     let f = im
         .items
         .iter()
         .find_map(|it| match it {
-            ImplItem::Fn(f) if f.sig.ident == "poll" => Some(f),
+            ImplItem::Fn(f) if f.sig.ident == "poll" || f.sig.ident == "poll_next" => Some(f),
             _ => None,
         })
-        .ok_or("fn poll not found")?;
-    let g = generics_for(&im.generics, &[], ctx, hints)?;
-    let out_ty = im
-        .items
-        .iter()
-        .find_map(|it| match it {
-            ImplItem::Type(t) if t.ident == "Output" => Some(g.ty(&t.ty)),
-            _ => None,
-        })
-        .ok_or("associated type Output not found")??;
+        .ok_or("fn poll / poll_next not found")?;
+    let pname = f.sig.ident.to_string();
+    let mut g = generics_for(&im.generics, &["E".to_string(), "Err".to_string()], ctx, hints)?;
+    // `Self::Output` / `Self::Item` in the declared result
+    for it in &im.items {
+        if let ImplItem::Type(t) = it {
+            if let Ok(ty) = g.ty(&t.ty) {
+                g.map.insert(format!("Self::{}", t.ident), ty);
+            }
+        }
+    }
+    let out_ty = match &f.sig.output {
+        ReturnType::Type(_, t) => match g.ty(t)? {
+            Ty::Poll(o) => *o,
+            _ => return bail("poll does not return Poll<_>"),
+        },
+        _ => return bail("poll without result"),
+    };
     let fut_out = si
         .fields
         .iter()
@@ -2930,7 +3031,7 @@ pub fn translate_poll_fn(items: &[Item], name: &str, ctx: &Ctx, hints: &HashMap<
         newtype: false,
         payload_of: HashMap::new(),
         extra: vec![],
-        fname: "poll".into(),
+        fname: pname.clone(),
         dyn_down: false,
         loop_state: None,
         ret_mode: Some(rt.clone()),
@@ -2958,7 +3059,7 @@ pub fn translate_poll_fn(items: &[Item], name: &str, ctx: &Ctx, hints: &HashMap<
             Expr::Loop(_) => fx.expr_stmt(e),
             _ => {
                 let v = fx.expr(e)?;
-                fx.emit(format!("ret := {}", v));
+                fx.emit(format!("pollRet := {}", v));
                 Ok(())
             }
         }
@@ -2973,7 +3074,7 @@ pub fn translate_poll_fn(items: &[Item], name: &str, ctx: &Ctx, hints: &HashMap<
         }
         Ok(())
     }
-    tail_block(&mut fx, &f.block).map_err(|e| format!("{}::poll: {}", name, e))?;
+    tail_block(&mut fx, &f.block).map_err(|e| format!("{}::{}: {}", name, pname, e))?;
     let has_loop = show_full(&f.block).contains("loop");
     let mut d = String::new();
     for x in &fx.extra {
@@ -2981,8 +3082,9 @@ pub fn translate_poll_fn(items: &[Item], name: &str, ctx: &Ctx, hints: &HashMap<
     }
     writeln!(
         d,
-        "def {}.poll (self0 : {}) (futs : Nat → Rs.Poll {}){} : Option ({} × Rs.Out × {}) := do",
+        "def {}.{} (self0 : {}) (futs : Nat → Rs.Poll {}){} : Option ({} × Rs.Out × {}) := do",
         name,
+        pname,
         name,
         fut_out.lean(),
         if has_loop { " (fuel : Nat)" } else { "" },
@@ -2990,19 +3092,19 @@ pub fn translate_poll_fn(items: &[Item], name: &str, ctx: &Ctx, hints: &HashMap<
         rt
     )
     .unwrap();
-    writeln!(d, "  let mut self_ := self0\n  let mut out : Rs.Out := []\n  let mut pc : Nat := 0\n  let mut ret : {} := Rs.Poll.pending", rt).unwrap();
+    writeln!(d, "  let mut self_ := self0\n  let mut out : Rs.Out := []\n  let mut pc : Nat := 0\n  let mut pollRet : {} := Rs.Poll.pending", rt).unwrap();
     for l in fx.lines {
         d += &l;
         d.push('\n');
     }
-    d += "  return (self_, out, ret)\n\n";
+    d += "  return (self_, out, pollRet)\n\n";
     Ok(d)
 }
 
 /// A struct without translated methods (the content of a shared cell, e.g. `ObserverData` of merge_all).
 pub fn translate_plain_struct(items: &[Item], name: &str, ctx: &mut Ctx, hints: &HashMap<String, Ty>) -> Res<String> {
     let st = find_struct(items, name).ok_or(format!("struct {} not found", name))?;
-    let mut g = generics_for(&st.generics, &[], ctx, hints)?;
+    let mut g = generics_for(&st.generics, &["E".to_string(), "Err".to_string()], ctx, hints)?;
     g.known.push(name.to_string());
     let mut fields = vec![];
     match &st.fields {
@@ -3157,9 +3259,35 @@ pub fn translate_observer(items: &[Item], name: &str, ctx: &mut Ctx, hints: &Has
                 if n == "new" {
                     continue;
                 }
-                units.push(FnUnit { im, f });
+                units.push(FnUnit { im, f, free: false });
             }
         }
+    }
+    // free helper functions whose first parameter is `&mut X<..>` / `&X<..>`
+    let free_fns: Vec<syn::ImplItemFn> = items
+        .iter()
+        .filter_map(|i| match i {
+            Item::Fn(f) => match f.sig.inputs.first() {
+                Some(FnArg::Typed(pt)) => match &*pt.ty {
+                    Type::Reference(r) => match &*r.elem {
+                        Type::Path(tp) if last_seg(&tp.path) == struct_src_name => Some(syn::ImplItemFn {
+                            attrs: vec![],
+                            vis: f.vis.clone(),
+                            modifiers: f.modifiers.clone(),
+                            sig: f.sig.clone(),
+                            block: (*f.block).clone(),
+                        }),
+                        _ => None,
+                    },
+                    _ => None,
+                },
+                _ => None,
+            },
+            _ => None,
+        })
+        .collect();
+    for f in &free_fns {
+        units.push(FnUnit { im: obs_impl, f, free: true });
     }
     // signatures first (methods may call each other)
     let mut info = StructInfo { name: name.to_string(), fields, methods: HashMap::new(), root_ty: root_ty.clone(), prefix: String::new(), cells };
@@ -3178,8 +3306,9 @@ pub fn translate_observer(items: &[Item], name: &str, ctx: &mut Ctx, hints: &Has
         }
         let gg = generics_for(&merge_generics(&u.im.generics, &u.f.sig.generics), &errs_here, ctx, hints)?;
         let recv = u.f.sig.inputs.first();
-        let by_ref_only = matches!(recv, Some(FnArg::Receiver(r)) if matches!(&r.kind, syn::ReceiverKind::Reference(_, _, None)));
-        if !matches!(recv, Some(FnArg::Receiver(_))) {
+        let by_ref_only = matches!(recv, Some(FnArg::Receiver(r)) if matches!(&r.kind, syn::ReceiverKind::Reference(_, _, None)))
+            || (u.free && matches!(recv, Some(FnArg::Typed(pt)) if matches!(&*pt.ty, Type::Reference(r) if r.mutability.is_none())));
+        if !matches!(recv, Some(FnArg::Receiver(_))) && !u.free {
             continue;
         }
         let mut has_ret = !matches!(u.f.sig.output, ReturnType::Default);
@@ -3193,7 +3322,9 @@ pub fn translate_observer(items: &[Item], name: &str, ctx: &mut Ctx, hints: &Has
         }
         let body_txt = show_full(&u.f.block);
         let needs_closed = body_txt.contains("is_closed") || fname == "is_closed";
-        let needs_down = has_ret && (body_txt.contains("is_finished") || fname == "is_finished");
+        let needs_down = (has_ret && (body_txt.contains("is_finished") || fname == "is_finished"))
+            || body_txt.contains("unbounded_send")
+            || (has_ret && body_txt.contains("sender . is_closed"));
         let ret = match &u.f.sig.output {
             ReturnType::Type(_, t) if has_ret => gg.ty(t).map_err(|e| format!("{}::{}: {}", name, fname, e))?,
             _ => Ty::Unit,
@@ -3215,6 +3346,27 @@ pub fn translate_observer(items: &[Item], name: &str, ctx: &mut Ctx, hints: &Has
             MethodInfo { effectful: !has_ret, params: params.clone(), needs_closed, needs_down, needs_pub: subscribe && !is_source, needs_grp: body_txt.contains("or_insert_with"), needs_handle: body_txt.contains(". schedule ("), ret: ret.clone(), partial: false, consumes: matches!(recv, Some(FnArg::Receiver(r)) if matches!(&r.kind, syn::ReceiverKind::Value)), dyn_down: subscribe && params.iter().any(|(_, t)| *t == Ty::Obs) && body_txt.contains("is_finished") },
         );
         sigs.push((fname, params, !has_ret));
+    }
+    // a method that calls a method needing `down` needs it too
+    loop {
+        let need: Vec<String> = info.methods.iter().filter(|(_, m)| m.needs_down).map(|(k, _)| k.clone()).collect();
+        let mut changed = false;
+        for u in &units {
+            let fname = u.f.sig.ident.to_string();
+            let body = show_full(&u.f.block);
+            if let Some(mi) = info.methods.get_mut(&fname) {
+                if !mi.needs_down && need.iter().any(|n| n != &fname && (body.contains(&format!(". {} (", n)) || body.contains(&format!(" {} (", n)))) {
+                    // (only for the channel observers: the ordinary observers ask `is_finished` of a downstream)
+                    if body.contains("complete") && need.contains(&"complete".to_string()) && info.fields.iter().any(|(_, t)| *t == Ty::Chan) {
+                        mi.needs_down = true;
+                        changed = true;
+                    }
+                }
+            }
+        }
+        if !changed {
+            break;
+        }
     }
     let mut s = String::new();
     let state_ty = match &root_ty {
@@ -3246,7 +3398,24 @@ pub fn translate_observer(items: &[Item], name: &str, ctx: &mut Ctx, hints: &Has
     let mut errors = vec![];
     let mut partials: Vec<String> = vec![];
     let mut order: Vec<usize> = (0..units.len()).collect();
-    order.sort_by_key(|i| units[*i].im.trait_.is_some());
+    order.sort_by_key(|i| units[*i].im.trait_.is_some() && !units[*i].free);
+    // a method that calls another one of the struct comes after it (Lean wants definitions before their uses)
+    {
+        let names: Vec<String> = units.iter().map(|u| u.f.sig.ident.to_string()).collect();
+        let bodies: Vec<String> = units.iter().map(|u| show_full(&u.f.block)).collect();
+        let mut sorted: Vec<usize> = vec![];
+        let mut rest = order.clone();
+        while !rest.is_empty() {
+            let pos = rest.iter().position(|i| {
+                rest.iter().all(|j| {
+                    j == i || names[*j] == names[*i] || !(bodies[*i].contains(&format!(". {} (", names[*j])) || bodies[*i].contains(&format!(" {} (", names[*j])) || bodies[*i].starts_with(&format!("{{ {} (", names[*j])))
+                })
+            });
+            let k = pos.unwrap_or(0);
+            sorted.push(rest.remove(k));
+        }
+        order = sorted;
+    }
     let mut done: Vec<String> = vec![];
     for i in order {
         let u = &units[i];
@@ -3283,7 +3452,17 @@ pub fn translate_observer(items: &[Item], name: &str, ctx: &mut Ctx, hints: &Has
             ind: 1,
             tmp: 0,
             locals: params.iter().cloned().collect(),
-            aliases: HashMap::new(),
+            aliases: {
+                let mut a = HashMap::new();
+                if u.free {
+                    if let Some(FnArg::Typed(pt)) = u.f.sig.inputs.first() {
+                        if let Pat::Ident(pi) = &*pt.pat {
+                            a.insert(ident(&pi.ident.to_string()), Place { root_self: true, local: String::new(), path: vec![] });
+                        }
+                    }
+                }
+                a
+            },
             effectful: *effectful,
             newtype,
             payload_of: HashMap::new(),
